@@ -90,11 +90,14 @@ func init() {
 			for _, a := range [][2]int64{{1, 1}, {1, 2}, {2, 1}, {1, 1019}, {1, 1020}, {1, 1024}, {1024, 1024}} {
 				r = append(r, &Instance{Pkg: fsm, Func: "VH_C12_deleterange", Args: []int64{a[0], a[1]}, Unwind: 32})
 			}
+			// the encoding has no terminator: enc(a) is a byte prefix of enc(ab), so the point
+			// lookup must compare whole keys (shared with C01: single-key read of an arbitrary state)
+			r = append(r, &Instance{Pkg: fsm, Func: "VH_C01_reads", Args: []int64{0, 2, 2, -1}, Unwind: 32})
 			return r
 		},
-		Covers: map[string][]string{"VH_C12_roundtrip": {"end"}, "VH_C12_order": {"end"}, "VH_C12_bounds": {"end"}, "VH_C12_increment": {"end"}, "VH_C12_options": {"end"}, "VH_C12_deleterange": {"end", "deleted"}},
+		Covers: map[string][]string{"VH_C12_roundtrip": {"end"}, "VH_C12_order": {"end"}, "VH_C12_bounds": {"end"}, "VH_C12_increment": {"end"}, "VH_C12_options": {"end"}, "VH_C12_deleterange": {"end", "deleted"}, "VH_C01_reads": {"end"}},
 		Bounds: map[string]string{
-			"quick":    "key lengths: every length 1..8 (round trip, all pairs up to 4x4 plus diagonal and 8), plus 1019/1020/1023/1024-byte keys (API limit 1024) with all bytes symbolic; bound triples with lengths 0..3 and four maximum-length triples; no symbolic loop",
+			"quick":    "key lengths: every length 1..8 (round trip, all pairs up to 4x4 plus diagonal and 8), plus 1019/1020/1023/1024-byte keys (API limit 1024) with all bytes symbolic; bound triples with lengths 0..3 and four maximum-length triples; no symbolic loop; point lookup (shared with C01): a single-key read of an arbitrary state of up to 2 pairs with keys of 1..2 symbolic bytes (so one stored key may extend the looked-up one) answers for exactly that key",
 			"thorough": "as quick with all 8x8 length pairs and bound triples 0..4",
 		},
 		Outside: "key lengths other than those enumerated (each enumerated length is decided for all 256^n contents); the unused stream Decoder (truncates at 1020 bytes; production uses DecodeBytes)",
@@ -351,6 +354,7 @@ func init() {
 				{Pkg: tb, Func: "VH_C14_diff", Args: []int64{1, 2}, Unwind: 64},
 				{Pkg: tb, Func: "VH_C14_reconcile", Unwind: 64, EngineOnly: true},
 				{Pkg: tb, Func: "VH_C14_snapshot", Unwind: 64},
+				{Pkg: tb, Func: "VH_C14_names", Unwind: 64},
 				{Pkg: tb, Func: "VH_C14_vacuity", Expect: "violated"},
 			}
 			if tier == "thorough" {
@@ -358,7 +362,7 @@ func init() {
 			}
 			return r
 		},
-		Covers: map[string][]string{"VH_C14_step": {"end", "create-ok", "create-exists", "delete-ok"}, "VH_C14_recreate": {"end"}, "VH_C14_race": {"end", "one-wins"}, "VH_C14_diff": {"end", "start", "stop"}, "VH_C14_reconcile": {"end", "start", "stop"}, "VH_C14_snapshot": {"end", "stale-name"}},
+		Covers: map[string][]string{"VH_C14_step": {"end", "create-ok", "create-exists", "delete-ok"}, "VH_C14_recreate": {"end"}, "VH_C14_race": {"end", "one-wins"}, "VH_C14_diff": {"end", "start", "stop"}, "VH_C14_reconcile": {"end", "start", "stop"}, "VH_C14_snapshot": {"end", "stale-name"}, "VH_C14_names": {"end"}},
 		Bounds: map[string]string{
 			"quick":    "catalogue over 3 names with arbitrary membership, ids drawn from (10000, seq] for seq in {absent, 10003, 10007}, arbitrary record versions; one create/delete/list step; delete+recreate; two racing creates (of one name, and of two different names) with every interleaving of their store accesses; diffTables over 2 records x 1 running shard and 1 record x 2 running shards (ids and recover-ids 64-bit symbolic) under all map orders; the whole Manager.reconcile (engine only) over a catalogue of 0..2 tables with table id and optional recovery id (also recovery id alone) from 10001..10004 and every subset of 10001..10004 running: exactly the missing catalogued ids are started under their own id, exactly the uncatalogued running ones stopped; a store replica holding an arbitrary stale catalogue over 2 names caught up by a snapshot of an arbitrary source catalogue over the same names: listing and lookups on it equal the source's",
 			"thorough": "diffTables 2 x 2",
@@ -545,6 +549,10 @@ func init() {
 				// recovery by snapshot: the stream a lagging follower installs is the leader's
 				// table at exactly the index it declares (shared with C07)
 				{Pkg: "storage/table/fsm", Func: "VH_C07_pointintime", Unwind: 64, EngineOnly: true},
+				// the leader's cached log reader serving followers at different positions:
+				// what a follower is handed starts at the index it asked for (shared with C06)
+				{Pkg: "storage/logreader", Func: "VH_C06_reader", Args: []int64{3, 2, 1}, Unwind: 16},
+				{Pkg: "storage/logreader", Func: "VH_C06_reader", Args: []int64{4, 2, 2}, Unwind: 16},
 				{Pkg: rp, Func: "VH_C05_vacuity", Expect: "violated"},
 			}
 			if tier == "thorough" {
@@ -552,9 +560,9 @@ func init() {
 			}
 			return r
 		},
-		Covers: map[string][]string{"VH_C05_round": {"end", "completed"}, "VH_C05_split": {"end"}, "VH_C07_pointintime": {"end", "old", "new"}},
+		Covers: map[string][]string{"VH_C05_round": {"end", "completed"}, "VH_C05_split": {"end"}, "VH_C07_pointintime": {"end", "old", "new"}, "VH_C06_reader": {"end"}},
 		Bounds: map[string]string{
-			"quick":    "one replication round (real worker.do + proposeBatch pulling from the real LogServer.Replicate over logreader.Simple): leader table in an arbitrary state (0..1 pairs of 1-byte arbitrary key/value) at an arbitrary index L (1 <= L < 2^14, so one- and two-byte varints and the step between them) with the log compacted up to L; follower with the same content, recorded leader index L and an unrelated own index; the leader then applies m commands: m=0; m=1 of 4 kinds (put, delete, range delete, non-idempotent transaction / dummy as generated by vhArbCommand); m=2 of 2 kinds with L < 2^7; arbitrary 64-bit message-size limit (0 = default), so the stream is cut at every position; the stream deadline may pass on the server at any loop iteration (symbolic clock); oracle: follower content == leader content at exactly the follower's recorded leader index, which is one the leader produced and never moves backwards, and a completed round ends at the leader's applied index with result 'tailing'; (split) one message carrying an arbitrary command of 4 kinds, a put with a 300 KiB value and a small put, so that proposeBatch cuts the message into two proposals at desiredProposalSize: every command applied exactly once; (recovery) the stream produced for a follower that recovers by snapshot, with one leader write applied concurrently under every interleaving of their database operations (engine only): content and declared index belong to the same state",
+			"quick":    "one replication round (real worker.do + proposeBatch pulling from the real LogServer.Replicate over logreader.Simple): leader table in an arbitrary state (0..1 pairs of 1-byte arbitrary key/value) at an arbitrary index L (1 <= L < 2^14, so one- and two-byte varints and the step between them) with the log compacted up to L; follower with the same content, recorded leader index L and an unrelated own index; the leader then applies m commands: m=0; m=1 of 4 kinds (put, delete, range delete, non-idempotent transaction / dummy as generated by vhArbCommand); m=2 of 2 kinds with L < 2^7; arbitrary 64-bit message-size limit (0 = default), so the stream is cut at every position; the stream deadline may pass on the server at any loop iteration (symbolic clock); oracle: follower content == leader content at exactly the follower's recorded leader index, which is one the leader produced and never moves backwards, and a completed round ends at the leader's applied index with result 'tailing'; (split) one message carrying an arbitrary command of 4 kinds, a put with a 300 KiB value and a small put, so that proposeBatch cuts the message into two proposals at desiredProposalSize: every command applied exactly once; (recovery) the stream produced for a follower that recovers by snapshot, with one leader write applied concurrently under every interleaving of their database operations (engine only): content and declared index belong to the same state; (cached log reader, shared with C06) two queries at arbitrary positions against logreader.Cached over a log of 3..4 entries with a cache of 2: every answer starts at the requested index, is gap-free, and the cache stays one contiguous run",
 			"thorough": "quick + m=2 (2 kinds) with L < 2^14 (two commands of all 4 kinds over a non-empty table exceed the path budget of 200000 and are not claimed)",
 		},
 		Outside: "proposal-size cuts at other positions than after the second of three commands; the lease/queue scheduling around do() (worker.Start loop, timers, metrics); snapshot recovery when the leader log is ahead (USE_SNAPSHOT path: asserted unreachable here, covered for content by C07); gRPC transport (the stream is an in-memory marshal/unmarshal copy of each message); more than 2 new commands per round; Cached log reader in this round (C06 covers the reader itself); leader-side concurrency (new entries applied while streaming)",
